@@ -52,6 +52,9 @@ struct Hg {
     held_readiness: bool,
     /// the executor may poll the woken call late (up to this many ticks pass first)
     late_ticks: usize,
+    /// every delay (and the explorer's time grid) is multiplied by this: 1, or 101 for the
+    /// seconds-range configurations (20 ms -> 2.02 s)
+    scale: u64,
 }
 
 struct X {
@@ -76,7 +79,7 @@ impl Scenario for Hg {
         "C12"
     }
     fn label(&self) -> String {
-        format!("hedge max_hedged_attempts={} delay={:?}{}", self.max, self.delay, if self.held_readiness { " hedge-clones-not-ready-until-released" } else if self.late_ticks > 0 { " late-polls" } else { "" })
+        format!("hedge max_hedged_attempts={} delay={:?}{}", self.max, self.delay, if self.held_readiness { " hedge-clones-not-ready-until-released" } else if self.late_ticks > 0 { " late-polls" } else if self.scale != 1 { " x101" } else { "" })
     }
     fn callers(&self) -> usize {
         1
@@ -87,13 +90,19 @@ impl Scenario for Hg {
     fn late_ticks(&self) -> usize {
         self.late_ticks
     }
+    fn grid_ms(&self) -> u64 {
+        10 * self.scale
+    }
     fn init(&self, w: &mut World) -> X {
         let b = HedgeLayer::builder().max_hedged_attempts(self.max);
         let b = match self.delay {
-            Delay::Fixed20 => b.delay(Duration::from_millis(20)),
+            Delay::Fixed20 => b.delay(Duration::from_millis(20 * self.scale)),
             Delay::Immediate => b.no_delay(),
             Delay::Frac => b.delay(Duration::from_micros(19_750)),
-            d => b.delay_fn(move |k| Duration::from_millis(d.of(k))),
+            d => {
+                let scale = self.scale;
+                b.delay_fn(move |k| Duration::from_millis(d.of(k) * scale))
+            }
         };
         let layer = b.build();
         w.inner.lock().unwrap().hold_late_ready = self.held_readiness;
@@ -166,7 +175,7 @@ impl Scenario for Hg {
         // started the attempt, so spacing is judged in the other configurations only)
         for k in 1..if self.held_readiness { 0 } else { n } {
             let gap = g.calls[k].start_ms - g.calls[k - 1].start_ms;
-            let need = self.delay.of(k);
+            let need = self.delay.of(k) * self.scale;
             if gap < need {
                 out.push(Viol::new("hedge_too_early", site, format!("attempt {k} started {gap}ms after attempt {} (configured delay {need}ms)", k - 1)));
             }
@@ -320,17 +329,23 @@ fn configs(tier: Tier) -> Vec<Hg> {
             if max < 3 && matches!(delay, Delay::Dyn20_30_10) || max != 2 && matches!(delay, Delay::Frac) {
                 continue;
             }
-            v.push(Hg { max, delay, max_ticks: tier.pick(6, 10), held_readiness: false, late_ticks: 0 });
+            v.push(Hg { max, delay, max_ticks: tier.pick(6, 10), held_readiness: false, late_ticks: 0, scale: 1 });
         }
         if max == 3 {
             // a late executor: the woken call is polled up to two ticks late
             for delay in [Delay::Fixed20, Delay::Dyn20_10] {
-                v.push(Hg { max, delay, max_ticks: tier.pick(7, 10), held_readiness: false, late_ticks: tier.pick(2, 3) });
+                v.push(Hg { max, delay, max_ticks: tier.pick(7, 10), held_readiness: false, late_ticks: tier.pick(2, 3), scale: 1 });
+            }
+        }
+        if max == 3 {
+            // delays in the seconds range (2.02 s, 3.03 s, 1.01 s)
+            for delay in [Delay::Fixed20, Delay::Dyn20_30_10] {
+                v.push(Hg { max, delay, max_ticks: tier.pick(6, 8), held_readiness: false, late_ticks: 0, scale: 101 });
             }
         }
         if max >= 2 {
             for delay in [Delay::Fixed20, Delay::Immediate] {
-                v.push(Hg { max, delay, max_ticks: tier.pick(5, 8), held_readiness: true, late_ticks: 0 });
+                v.push(Hg { max, delay, max_ticks: tier.pick(5, 8), held_readiness: true, late_ticks: 0, scale: 1 });
             }
         }
     }
